@@ -81,5 +81,15 @@ def run(ctx):
         ctx.absorb(it)
         if it.unknown_notes:
             ctx.notes.extend(it.unknown_notes[:10])
+    # ---- R01.5 the 2-D class reaches the same moments through e = sum_d E*dtheta: bin widths and e (shared with C02)
+    from .c02 import direction_rules
+    with ctx.renamed({"R02.1": "R01.5", "R02.2": "R01.5", "R02.3": "R01.5"}):
+        direction_rules(ctx)
+    ctx.require_count("R01.5", 8)
+    # ---- R01.6 no unsynchronised copy of the density (or anything derived from it) is kept on a spectrum object
+    from ..statecache import instance_memo_rule, positive_example
+    instance_memo_rule(ctx, "R01.6", [p.get_class(CLS_1D), p.get_class(CLS_2D)], "spectrum classes")
+    positive_example(ctx, "R01.6")
+    ctx.require_count("R01.6", 2)
     ctx.require_count("R01.1", 4)
     ctx.require_count("R01.3", 30)
